@@ -19,7 +19,21 @@ theorem input_iff_root_or_changed (w : Wiring) (hw : RouterOK w) (react : React 
     (pre post : List (Ev Val)) (d : Dispatch Val) (htr : s.trace = pre ++ Ev.dispatch d :: post) :
     (∃ ins, d = .input d.comp t ins) ↔
       (d.comp ∈ roots ∨ ∃ a chs p q v, Ev.answer a chs ∈ pre ∧ w.Conn a p d.comp q ∧ alookup chs p = some v) := by
-  sorry
+  have hd := (hs.eqInv hw hr).pre.dec pre d post htr
+  rcases hd.spec with ⟨ins, hd', hrc, _⟩ | ⟨hd', hnr, hnc⟩
+  · constructor
+    · intro _
+      rcases hrc with h | ⟨q, v, a, chs, p, h⟩
+      · exact Or.inl h
+      · exact Or.inr ⟨a, chs, p, q, v, h⟩
+    · intro _
+      exact ⟨ins, hd'⟩
+  · constructor
+    · rintro ⟨ins, hi⟩
+      cases hi.symm.trans hd'
+    · rintro (h | ⟨a, chs, p, q, v, h⟩)
+      · exact absurd h hnr
+      · exact absurd ⟨a, chs, p, h⟩ (hnc q v)
 
 /-- **what it is given.**  The changes carried by an `Input` are exactly the values routed
 from the answers already given in this tick: port `q` carries `v` iff the (unique) output
@@ -30,7 +44,12 @@ theorem input_changes_exact (w : Wiring) (hw : RouterOK w) (react : React Val) (
     (htr : s.trace = pre ++ Ev.dispatch (.input c t ins) :: post) (q : Port) (v : Val) :
     alookup ins q = some v ↔
       ∃ a chs p, Ev.answer a chs ∈ pre ∧ w.Conn a p c q ∧ alookup chs p = some v := by
-  sorry
+  have hd := (hs.eqInv hw hr).pre.dec pre _ post htr
+  rcases hd.spec with ⟨ins', hd', _, hch⟩ | ⟨hd', _⟩
+  · simp only [Dispatch.comp, Dispatch.input.injEq, true_and] at hd' hch
+    subst hd'
+    exact hch q v
+  · cases hd'
 
 /-- a skipped component answers with no changes, so skipping propagates. -/
 theorem skip_answers_nothing (react : React Val) (c : Comp) (t : SimTime) :
@@ -57,7 +76,7 @@ theorem tick_deterministic (w : Wiring) (hw : RouterOK w) (hacyc : w.Acyclic)
     | some d1, some d2 => Dispatch.Equiv d1 d2
     | none, none => True
     | _, _ => False := by
-  sorry
+  exact sameDispatch_of_complete hw hacyc hr hext h1 h2 hf1 hf2 c
 
 /-- every well-formed wiring with one source per input port satisfies the router facts
 the ticker relies on (they are the C16 theorems). -/
